@@ -707,6 +707,7 @@ func checkC03(c *Ctx) {
 	checkC03PeekPop(c)
 	checkC03EscapeResets(c)
 	checkRound5Small(c, "C03")
+	checkReadersAgreeOnOrder(c, "C03.readers-agree-on-order")
 	r.Rule("C03.popkey-owner", "K2", "core.PopKey (which leaves mustWait untouched) is called only by the dispatcher; any other consumer drops keys with PopForce", 1)
 	if pk := p.Func("core.PopKey"); pk != nil {
 		for _, e := range p.callersOf(pk) {
